@@ -75,10 +75,31 @@ def accum(fn):
     return out
 
 
+def methods_mro(tree, cls):
+    """methods of a class including those inherited from classes of the same module (nearest definition wins)"""
+    out = {}
+    seen = set()
+    todo = [cls]
+    while todo:
+        c = todo.pop(0)
+        if c is None or c.name in seen:
+            continue
+        seen.add(c.name)
+        for k, v in M.methods(c).items():
+            out.setdefault(k, v)
+        for b in c.bases:
+            if isinstance(b, ast.Name):
+                try:
+                    todo.append(M.find_class(tree, b.id))
+                except Exception:
+                    pass
+    return out
+
+
 def rule_normalised(chk, tree):
     for method, cname in sorted(NORMALISED.items()):
         cls = M.find_class(tree, cname)
-        ms = M.methods(cls)
+        ms = methods_mro(tree, cls)
         for need in ('initialize', 'loop', 'post_loop'):
             if need not in ms:
                 raise AnalysisError('%s.%s vanished' % (cname, need))
@@ -119,15 +140,31 @@ def rule_normalised(chk, tree):
     # the un-normalised sums: documented as the volume-weighted sums
     for method, cname, w in (('sph', 'InterpolateSPH', 'WIJ'), ('splash', 'SPLASHInterpolateProperty', 'WI')):
         cls = M.find_class(tree, cname)
-        lp = accum(M.methods(cls)['loop'])
+        ms_ = methods_mro(tree, cls)
+        if 'loop' not in ms_ or 'initialize' not in ms_:
+            raise AnalysisError('%s has no loop / initialize (own or inherited)' % cname)
+        lp = accum(ms_['loop'])
         num = lp.get('d_prop[d_idx]')
         want = Poly.var('s_m[s_idx]') * Poly.var('INV{s_rho[s_idx]}') * Poly.var(w) * Poly.var('s_temp_prop[s_idx]')
         ok = num is not None and num[0] == '+=' and num[1] is not None and (num[1] - want).is_zero()
         chk.decide(ok, 'weighted-sum', method, node=num[2] if num else cls, file=INT, func=cname + '.loop',
                    detail_bad='%s accumulates %s; the method is the sum of (m_j/rho_j) * %s * f_j' % (method, num[1] if num else None, w), detail_ok=str(want))
-        ini = accum(M.methods(cls)['initialize'])
+        ini = accum(ms_['initialize'])
         chk.decide('d_prop[d_idx]' in ini and ini['d_prop[d_idx]'][1] is not None and ini['d_prop[d_idx]'][1].is_zero(), 'weighted-sum', method + ':zeroed',
                    node=cls, file=INT, func=cname + '.initialize', detail_bad='sum not started at zero', detail_ok='starts at 0')
+
+
+def fold_ok(f_):
+    """the function folds the maximum of array.h over self.particle_arrays"""
+    for l in ast.walk(f_):
+        if isinstance(l, ast.For) and compact(l.iter) == 'self.particle_arrays' and isinstance(l.target, ast.Name):
+            v = l.target.id
+            for x in ast.walk(l):
+                if isinstance(x, ast.Assign) and isinstance(x.targets[0], ast.Name):
+                    acc = x.targets[0].id
+                    if same_stmt(x, '%s=max(%s.h.max(),%s)' % (acc, v, acc)):
+                        return True
+    return False
 
 
 def rule_sources(chk, tree):
@@ -157,10 +194,47 @@ def rule_sources(chk, tree):
     kw = dict((k.arg, compact(k.value)) for k in c[0].keywords) if c else {}
     chk.decide(kw.get('name') == "'interpolate'" and kw.get('x') == 'xr' and kw.get('y') == 'yr' and kw.get('z') == 'zr' and kw.get('h') == 'h', 'all-arrays-are-sources',
                'target-array', node=pa, file=INT, func='_create_particle_array', detail_bad='target array built with %s' % kw, detail_ok="name='interpolate', the target coordinates")
-    hm = M.find_func(icls, '_get_max_h_in_arrays')
-    ok = any(isinstance(l, ast.For) and compact(l.iter) == 'self.particle_arrays' for l in ast.walk(hm)) and any(isinstance(x, ast.Assign) and same_stmt(x, 'hmax=max(array.h.max(),hmax)') for x in ast.walk(hm))
-    chk.decide(ok, 'all-arrays-are-sources', 'target-h-is-max-source-h', node=hm, file=INT, func='_get_max_h_in_arrays',
-               detail_bad='target smoothing length is not the maximum h over all source arrays', detail_ok='max over all arrays')
+    # the smoothing length of the target points is the largest h of the *current* source data: computed, in the call that creates the target array, by a
+    # fold over self.particle_arrays (directly or through a helper method) - a value remembered from an earlier call lags behind in-place changes of h
+    hk = [k.value for k in c[0].keywords if k.arg == 'h'] if c else []
+
+    def origin(e, fn_, depth=0):
+        """how the scalar behind e is obtained: 'fold' (computed now from the arrays), 'stored:<attr>' or 'other'"""
+        if depth > 6:
+            return 'other'
+        if isinstance(e, ast.BinOp):
+            parts = [origin(x, fn_, depth + 1) for x in (e.left, e.right)]
+            parts = [p_ for p_ in parts if p_ != 'shape']
+            return parts[0] if len(parts) == 1 else 'other'
+        if isinstance(e, ast.Call):
+            nm_ = M.call_name(e) or ''
+            if nm_.split('.')[-1] in ('ones_like', 'ones', 'zeros_like'):
+                return 'shape'
+            if nm_.split('.')[-1] in ('full', 'full_like') and len(e.args) >= 2:
+                return origin(e.args[1], fn_, depth + 1)
+            if nm_.startswith('self.') and nm_.count('.') == 1:
+                try:
+                    h_ = M.find_func(icls, nm_[5:])
+                except Exception:
+                    return 'other'
+                return 'fold' if fold_ok(h_) else 'other'
+            return 'other'
+        if isinstance(e, ast.Name):
+            ds = [a.value for a in ast.walk(fn_) if isinstance(a, ast.Assign) and compact(a.targets[0]) == e.id]
+            if not ds:
+                return 'other'
+            if fold_ok(fn_) and any(isinstance(x, ast.Assign) and compact(x.targets[0]) == e.id and isinstance(x.value, ast.Call) and M.call_name(x.value) == 'max' for x in ast.walk(fn_)):
+                return 'fold'
+            os_ = set(origin(d, fn_, depth + 1) for d in ds)
+            return os_.pop() if len(os_) == 1 else 'other'
+        if isinstance(e, ast.Attribute) and compact(e.value) == 'self':
+            return 'stored:' + e.attr
+        return 'other'
+    og = origin(hk[0], pa) if hk else 'other'
+    chk.decide(og == 'fold', 'all-arrays-are-sources', 'target-h-is-max-source-h', node=pa, file=INT, func='_create_particle_array',
+               detail_bad=('the target smoothing length is read from self.%s, a value stored by an earlier call: after the source h changed in place (next snapshot loaded into the same '
+                           'arrays) new target points get the previous data\'s h' % og.split(':')[1]) if og.startswith('stored:') else
+               'target smoothing length is not the maximum h over all current source arrays', detail_ok='max over all arrays, computed when the target array is created')
 
 
 def rule_method_table(chk, tree):
@@ -412,7 +486,12 @@ def rule_targets_and_groups(chk, tree):
             if isinstance(e, ast.Name):
                 ds2 = [a.value for a in ast.walk(cpa) if isinstance(a, ast.Assign) and compact(a.targets[0]) == e.id]
                 return bool(ds2) and all(is_hmax(d) for d in ds2)
-            return isinstance(e, ast.Call) and M.call_name(e) == 'self._get_max_h_in_arrays'
+            if isinstance(e, ast.Call) and (M.call_name(e) or '').startswith('self.') and (M.call_name(e) or '').count('.') == 1:
+                try:
+                    return fold_ok(M.find_func(icls, M.call_name(e)[5:]))
+                except Exception:
+                    return False
+            return False
         why = 'h of the target points is %s' % (compact(hv) if hv is not None else None)
         if isinstance(hv, ast.BinOp) and isinstance(hv.op, ast.Mult):
             # hmax * ones_like(x): float scalar times an array keeps the float
@@ -445,6 +524,14 @@ def rule_targets_and_groups(chk, tree):
                             names |= set(M.call_name(c) for c in M.calls(a.value))
         if 'SummationDensity' in names:
             sd_groups.append((gcall, kw, names))
+    partial = []
+    for gcall in groups:
+        for k in gcall.keywords:
+            if k.arg in ('condition', 'start_idx', 'stop_idx', 'iterate', 'max_iterations', 'min_iterations'):
+                partial.append('%s=%s' % (k.arg, compact(k.value)))
+    chk.decide(not partial, 'order1-linear-reproduction', 'every-group-runs-in-every-evaluation', node=groups[0] if groups else cae, file=INT, func='_compile_acceleration_eval',
+               detail_bad='a group of the interpolation evaluator is built with %s: densities / moments / sums are then not recomputed over all particles in every interpolate() call, '
+                          'although masses, densities and properties of the sources may have changed in place' % partial, detail_ok='no group is conditional, iterated or restricted to an index range')
     ok = bool(sd_groups) and all(isinstance(kw.get('real'), ast.Constant) and kw['real'].value is False and
                                  not (names & set(['SPHFirstOrderApproximationPreStep', 'SPHFirstOrderApproximation'])) for g_, kw, names in sd_groups)
     chk.decide(ok, 'order1-linear-reproduction', 'densities-cover-ghosts', node=sd_groups[0][0] if sd_groups else cae, file=INT, func='_compile_acceleration_eval',
